@@ -4,6 +4,7 @@ CONSTANTS
   MaxRoot = 1
   MaxMid = 2
   RootTargets = {"m"}
+  MidTargets = {"a"}
   Spellings = {"plain"}
   CfgPool = "basic"
   ListPool = "full"
